@@ -576,6 +576,10 @@ class Inliner:
         for p, a in b.items():
             if _simple_arg(a) and p not in assigned_params:
                 mapping[p] = a
+            elif p not in assigned_params and isinstance(a, (ast.Dict, ast.Tuple, ast.List)) and _table_display(a) \
+                    and sum(1 for s_ in body for n in ast.walk(s_) if isinstance(n, ast.Name) and n.id == p) == 1:
+                # a table written out at the call and read once by the callee (`for row in table.items()`): read there as written
+                mapping[p] = a
             else:
                 nm = p + tag
                 ren[p] = nm
@@ -1877,6 +1881,63 @@ def known_defs() -> set[str]:
         p = Path(__file__).with_name("known_defs.json")
         _KNOWN = set(json.loads(p.read_text())) if p.exists() else set()
     return _KNOWN
+
+
+def inline_table_locals(stmts):
+    """table = ((A, f), (B, g)); ..; for row in table: ..     with `table` bound once to a display of names / constants / lambdas and read
+    once, as the iterable of a loop: the display is written there (the loop is then a literal one in both substitution modes)"""
+    uses = {}
+    for s_ in stmts:
+        for n in ast.walk(s_):
+            if isinstance(n, ast.Name):
+                uses[n.id] = uses.get(n.id, 0) + 1
+    tables = {}
+    for s_ in stmts:
+        for n in ast.walk(s_):
+            if isinstance(n, ast.Assign) and len(n.targets) == 1 and isinstance(n.targets[0], ast.Name) and uses.get(n.targets[0].id) == 2 \
+                    and isinstance(n.value, (ast.Tuple, ast.List, ast.Dict)) and _table_display(n.value):
+                tables[n.targets[0].id] = n
+    if not tables:
+        return stmts
+    hit = set()
+
+    class R(ast.NodeTransformer):
+        def visit_For(self, node):
+            self.generic_visit(node)
+            it = node.iter
+            base = it.func.value if isinstance(it, ast.Call) and isinstance(it.func, ast.Attribute) and it.func.attr in ("items", "keys", "values") and not it.args else it
+            if isinstance(base, ast.Name) and base.id in tables and base.id not in hit:
+                hit.add(base.id)
+                disp = copy.deepcopy(tables[base.id].value)
+                if base is it:
+                    node.iter = disp
+                else:
+                    it.func.value = disp
+            return node
+    out = [R().visit(s_) for s_ in stmts]
+    if not hit:
+        return stmts
+
+    class D(ast.NodeTransformer):
+        def visit_Assign(self, node):
+            if len(node.targets) == 1 and isinstance(node.targets[0], ast.Name) and node.targets[0].id in hit and node is tables.get(node.targets[0].id):
+                return None
+            return node
+    out = [x for x in (D().visit(s_) for s_ in out) if x is not None]
+    for s_ in out:
+        for fld in ("body", "orelse", "finalbody"):
+            bb = getattr(s_, fld, None)
+            if isinstance(bb, list) and not bb:
+                setattr(s_, fld, [ast.Pass()] if fld == "body" else [])
+        ast.fix_missing_locations(s_)
+    return out
+
+
+def _table_display(e) -> bool:
+    """a display of names / constants / lambdas (possibly nested tuples), at most 12 rows: a dispatch table written in the code"""
+    if isinstance(e, ast.Dict):
+        return 1 <= len(e.keys) <= 12 and all(k is not None and _table_entry(k) for k in e.keys) and all(_table_entry(v) for v in e.values)
+    return isinstance(e, (ast.Tuple, ast.List)) and 1 <= len(e.elts) <= 12 and all(_table_entry(x) for x in e.elts)
 
 
 def _table_entry(e) -> bool:
@@ -4121,7 +4182,7 @@ class Canon:
         b = lift_walrus(lift_ifexp(b))          # conditional expressions returned by inlined helpers
         used = {n.id for s in b for n in ast.walk(s) if isinstance(n, ast.Name)} | {n.func.id for s in b for n in ast.walk(s) if isinstance(n, ast.Call) and isinstance(n.func, ast.Name)}
         b = [s for s in b if not (isinstance(s, ast.FunctionDef) and s.name not in used)]
-        b = [ast.fix_missing_locations(_FoldConst().visit(s_)) for s_ in norm.unroll_literal_loops(b)]      # (rows of a table written in for the loop variable)
+        b = [ast.fix_missing_locations(_FoldConst().visit(s_)) for s_ in norm.unroll_literal_loops(inline_table_locals(b))]      # (rows of a table written in for the loop variable)
         b = norm.map_pushdown(norm.extend_to_augassign(b), pure_calls=_PURE_EXT)
         b = norm.split_parallel_assign(norm.merge_display_building(b))
         b = norm.default_then_override(b)
